@@ -17,10 +17,31 @@ From Coq Require Import List NArith ZArith Bool Arith.
 From T38 Require Import Base.Bytes Model.Glob.
 Import ListNotations.
 
-(* glob.IsGlob: a '[', '*' or '?' occurs and the pattern is well formed *)
+(* glob.IsGlob (internal/glob/glob.go), the pattern-vs-literal decision of the ROAM clause:
+     for i := 0; i < len(pattern); i++ {
+       switch pattern[i] {
+       case '[', '*', '?':
+         _, err := Match(pattern, "whatever")
+         return err == nil
+       }
+     }
+     return false
+   metas = the bytes of the case list (ISGLOB_METAS for the code as it is; the list is a parameter so
+   that Proofs/RoamPatProofs.v can refute the variants that forget one of them).  The case list
+   and the probe string are re-read from the source on every run (coq/Gen/GlobMeta.v) and compared
+   with ISGLOB_METAS / WHATEVER by c20_isglob_source_tied. *)
 Definition is_glob_meta (c : N) : bool := (N.eqb c LBR) || (N.eqb c STAR) || (N.eqb c QM).
-Definition is_glob (p : bytes) : bool :=
-  existsb is_glob_meta p && match glob_match p WHATEVER with WBad => false | _ => true end.
+Definition ISGLOB_METAS : list N := [LBR; STAR; QM].
+Fixpoint is_glob_loop (metas : list N) (whole p : bytes) : bool :=
+  match p with
+  | [] => false                                                      (* return false *)
+  | c :: p' =>
+      if existsb (N.eqb c) metas
+      then match glob_match whole WHATEVER with WBad => false | _ => true end   (* return err == nil *)
+      else is_glob_loop metas whole p'
+  end.
+Definition is_glob_with (metas : list N) (p : bytes) : bool := is_glob_loop metas p p.
+Definition is_glob (p : bytes) : bool := is_glob_with ISGLOB_METAS p.
 
 (* swap-remove of a slice element:  l[i] = l[len(l)-1]; l = l[:len(l)-1]  *)
 Definition set_nth {A} (i : nat) (x : A) (l : list A) : list A := firstn i l ++ x :: skipn (S i) l.
